@@ -310,8 +310,18 @@ func needsBacktickQuoting(name string) bool {
 
 // exprFallbackText renders an expression that has no dedicated text form as the header
 // line of its EXPLAIN node, never as a Go struct dump (which would leak token positions
-// and heap addresses into the output)
+// and heap addresses into the output). The node's children are not printed, so neither
+// is its children count.
 func exprFallbackText(expr ast.Expression) string {
+	line := exprHeaderLine(expr)
+	if i := strings.LastIndex(line, " (children "); i >= 0 && strings.HasSuffix(line, ")") {
+		return line[:i]
+	}
+	return line
+}
+
+// exprHeaderLine returns the first line of the EXPLAIN rendering of an expression
+func exprHeaderLine(expr ast.Expression) string {
 	if expr == nil {
 		return ""
 	}
